@@ -409,6 +409,14 @@ func checkC15(r *Result, rng *rand.Rand, thorough bool) {
 		pl3 := cat(encCallHdr(xid, 2, progNFS, 3, 7, 1, cred, 0, nil), fh(root+2), u64(0), u32(l), u32(2), u32(l), randBytes(rng, 16))
 		streams = append(streams, c15Stream{Recs: []c15Rec{valid()[0], {Payload: pl3, Xid: xid}, valid()[2]}})
 	}
+	// 4a. an AUTH_SYS credential of 20 bytes that declares 2^30 .. 2^32-1 auxiliary gids
+	for _, cnt := range []uint32{17, 1 << 30, 1<<30 + 3, 1 << 31, 0xffffffff} {
+		xid++
+		base := encAuthSys(1, []byte("h"), 2, 3, nil)
+		body := append(base[:len(base)-4], u32(cnt)...)
+		pl := encCallHdr(xid, 2, progNFS, 3, 0, 1, body, 0, nil)
+		streams = append(streams, c15Stream{Recs: []c15Rec{valid()[0], {Payload: pl, Xid: xid}, valid()[2]}})
+	}
 	// 4b. records over the 1 MiB record limit built from fragments that are each well below it: a valid NULL call
 	// (trailing argument bytes are ignored by NULL, so the record would be answered if it were accepted) padded
 	// to 1.25 MiB / 3 MiB and sent in 3 / 7 fragments, with valid calls before and after
